@@ -50,6 +50,10 @@ pub assume_specification<T: Clone> [<[T]>::to_vec] (s: &[T]) -> (r: Vec<T>)
 pub assume_specification [char::is_ascii] (c: &char) -> (r: bool)
     ensures r == ((*c as u32) <= 0x7f);
 
+// core::mem::take (assumed; std): hands the value out and leaves `T::default()` behind
+pub assume_specification<T: Default> [core::mem::take::<T>] (dest: &mut T) -> (r: T)
+    ensures r == *old(dest), call_ensures(<T as Default>::default, (), *final(dest));
+
 /// marker mirror of data/src/simple.rs::SimpleDataType (its supertraits are not used by the extracted code)
 pub trait SimpleDataType: Clone {}
 
